@@ -26,7 +26,7 @@ Qed.
 Lemma pcfg_eqb_eq a b : pcfg_eqb a b = true <-> a = b.
 Proof.
   unfold pcfg_eqb. rewrite !andb_true_iff, !N.eqb_eq, sels_eqb_eq. destruct a, b; cbn.
-  split; [intros [[-> ->] ->]; reflexivity|intros [= -> -> ->]; auto].
+  split; [intros [[[-> ->] ->] ->]; reflexivity|intros [= -> -> -> ->]; auto].
 Qed.
 Lemma prefix_eqb_eq a b : prefix_eqb a b = true <-> a = b.
 Proof.
@@ -104,7 +104,7 @@ Lemma in_publish st q' :
   In q' (publish st) <->
   exists q, In q (bs_peers st) /\
     q' = match ps_sess q with
-         | Some _ => {| ps_cfg := ps_cfg q; ps_sess := Some (ads_for_peer (pc_name (ps_cfg q)) (all_ads st)) |}
+         | Some _ => {| ps_cfg := ps_cfg q; ps_sess := Some (ads_for_peer (pc_name (ps_cfg q)) (all_ads st)); ps_made := ps_made q |}
          | None => q
          end.
 Proof.
@@ -459,6 +459,74 @@ Proof.
     destruct (N.eqb_spec n name) as [->|Hne]; [discriminate|]. exists n, ips, advs, x, a. tauto.
   - intros [n [ips [advs [x [a [Hne [E H]]]]]]]. exists n, ips, advs, x, a. rewrite announced_snoc.
     destruct (N.eqb_spec n name) as [->|_]; [congruence|]. tauto.
+Qed.
+
+(* ---------------------------------------------------------------- session (re)creation rule *)
+(* every live session was created from the peer's CURRENT configuration: SetConfig keeps a session only
+   for a peer whose whole configuration is unchanged (reflect.DeepEqual), otherwise closes it and opens a
+   new one from the new configuration *)
+Definition made_ok (st : bstate) : Prop :=
+  forall q, In q (bs_peers st) -> ps_sess q <> None -> ps_made q = Some (ps_cfg q).
+
+Lemma made_update st : made_ok st -> made_ok (update_ads st).
+Proof.
+  intros H q Hq Hl. cbn [update_ads bs_peers] in Hq. apply in_publish in Hq. destruct Hq as [q0 [Hq0 ->]].
+  destruct (ps_sess q0) eqn:E; cbn in *; [apply (H q0 Hq0); congruence|apply (H q0 Hq0); exact Hl].
+Qed.
+
+Lemma made_sync cr force st : made_ok st -> made_ok (sync_peers_gen cr force st).
+Proof.
+  intros H. rewrite sync_unfold. cbv zeta.
+  assert (H1 : made_ok (with_peers st (map (fun x => fst (fst x)) (map (sync_one (bs_labels st)) (bs_peers st))))).
+  { intros q Hq Hl. cbn [with_peers bs_peers] in Hq. rewrite map_map in Hq. apply in_map_iff in Hq. destruct Hq as [q0 [<- Hq0]].
+    revert Hl. unfold sync_one. destruct (ps_sess q0) eqn:E, (should_run (bs_labels st) (ps_cfg q0)); cbn; intros Hl; try congruence.
+    apply (H q0 Hq0). congruence. }
+  destruct (_ || _); [apply made_update; exact H1|exact H1].
+Qed.
+
+Lemma made_step me st e : made_ok st -> made_ok (bstep me st e).
+Proof.
+  intros H. destruct e as [name ips advs|name|cfgs|n labels]; unfold bstep, bstep_gen.
+  - unfold bset_balancer. apply made_update. exact H.
+  - unfold bdelete. destruct (bs_ads st name); [apply made_update|]; exact H.
+  - unfold bset_config_gen. destruct (diff_peers cfgs (bs_peers st)) as [nw o] eqn:D.
+    destruct (diff_peers_spec _ _ _ _ D) as [_ [_ [D3 _]]]. apply made_sync.
+    intros q Hq Hl. cbn [bs_peers] in Hq. destruct (D3 q Hq) as [Ho|Hn]; [apply (H q Ho Hl)|congruence].
+  - unfold bset_node_gen. destruct (negb (n =? me)); [exact H|].
+    destruct (bs_labels st); [destruct (lbl_eqb _ _); [exact H|]|]; apply made_sync; exact H.
+Qed.
+
+Lemma made_run me evs : made_ok (brun me evs).
+Proof.
+  induction evs as [|e evs IH] using rev_ind; [intros q []|]. rewrite brun_snoc. apply made_step. exact IH.
+Qed.
+
+Lemma NoDup_map_eq {A B} (f : A -> B) l x y : NoDup (map f l) -> In x l -> In y l -> f x = f y -> x = y.
+Proof.
+  induction l as [|a l IH]; cbn; intros Hnd Hx Hy Hf; [destruct Hx|]. inversion Hnd as [|? ? Ha Hl]; subst.
+  destruct Hx as [->|Hx], Hy as [->|Hy]; auto.
+  - exfalso. apply Ha. rewrite Hf. apply in_map. exact Hy.
+  - exfalso. apply Ha. rewrite <- Hf. apply in_map. exact Hx.
+Qed.
+
+(* after any event list: every configured peer selected for this node has exactly one session, and it
+   was created from the peer's current configuration; a peer not selected has none *)
+Lemma selected_peer_has_one_current_session me evs c :
+  NoDup (map pc_name (last_cfg evs)) -> In c (last_cfg evs) ->
+  exists q, In q (bs_peers (brun me evs)) /\ ps_cfg q = c /\
+            (forall q', In q' (bs_peers (brun me evs)) -> pc_name (ps_cfg q') = pc_name c -> q' = q) /\
+            (should_run (last_labels me evs) c = true -> ps_sess q <> None /\ ps_made q = Some c) /\
+            (should_run (last_labels me evs) c = false -> ps_sess q = None).
+Proof.
+  intros Hnd Hc. destruct (sessions_exact me evs) as [Hcfg Hlive].
+  rewrite <- Hcfg in Hc, Hnd. apply in_map_iff in Hc. destruct Hc as [q [Hqc Hq]]. exists q.
+  split; [exact Hq|]. split; [exact Hqc|]. split.
+  - intros q' Hq' Hn. rewrite map_map in Hnd. apply (NoDup_map_eq (fun x => pc_name (ps_cfg x)) _ q' q Hnd Hq' Hq). congruence.
+  - rewrite <- Hqc. split.
+    + intros Hr. assert (Hl : ps_sess q <> None) by (apply (Hlive q Hq); exact Hr).
+      split; [exact Hl|apply (made_run me evs q Hq Hl)].
+    + intros Hr. destruct (ps_sess q) eqn:E; [|reflexivity]. exfalso.
+      assert (Hl : ps_sess q <> None) by congruence. apply (Hlive q Hq) in Hl. congruence.
 Qed.
 
 (* the aggregate contains the address; aggregation never leaves a pool CIDR that is at most as long *)
